@@ -463,8 +463,16 @@ let rec handle (line : string) : string =
       | Ok g -> "OK " ^ str_msg (msg_of_frame g)
       | Err e -> str_ferr e in
     Printf.sprintf "%s | %s" (one (encode f)) (one (encode_nl f))
-  | "WIRES" :: "!" :: ms | "WIRES" :: ms ->   (* "!": an earlier failed write elsewhere, which cannot matter *)
+  | "WIRES" :: rest ->
+    (* flags: "!" / "@" an earlier failed / panicked write elsewhere, which cannot matter; "$" the last frame lacks CR LF *)
+    let rec strip l unterminated = match l with
+      | ("!" | "@") :: r -> strip r unterminated
+      | "$" :: r -> strip r true
+      | _ -> (l, unterminated) in
+    let (ms, unterminated) = strip rest false in
     let stream = List.concat_map (fun m -> encode_nl (frame_of_msg (msg_of_str m))) ms in
+    let stream = if unterminated && List.length stream >= 2
+      then List.filteri (fun i _ -> i < List.length stream - 2) stream else stream in
     let r = ref { r_content = stream; r_sched = [] } in
     let outs = List.map (fun _ ->
         match frame_read !r with
